@@ -6,7 +6,9 @@ Driver for the engine `cancel` (C04 end to end).  One case = one cancellation sc
 
 records (op ⇒ implementation's observation):
   `reset`                                                     ⇒ `ok`
-  `cfg tr=<transport> pv=<version>`                           ⇒ `ok` | `connect-fail` | `panic`
+  `cfg tr=<transport> pv=<version> [bc=1] [tw=c|s]`           ⇒ `ok` | `connect-fail` | `panic`
+        (tw: TWO sessions — c: one Client, two servers; s: one Server, two client sessions; a `c` record with `s=1` is a call
+        on session 1, `x … v2=<j>`: call j of session 1 is cancelled 20 ms after the victim; faults hit session 0 only)
   `c <i> dir=<c2s|s2cn|s2cd> meth=<m> mode=<park|deaf|quick|drive> d=<ms> at=<ms>` ⇒ `ok`
   `x victim=<i> when=<pre|run|race|post> tc=<ms> dl=<0|1> fault=<none|stall|reject|fail|late|timeout|s503|reset> [cz=1] [rc=1]` ⇒ `ok`
         (a `c` record may carry `g=1`: the call's context is also a child of the case's shared group context, which ends when
@@ -37,10 +39,13 @@ def kv (toks : List String) (k : String) : Option String :=
 structure CallRec where
   dir : String
   meth : String
+  /-- the session the call is made on (twin cases: 0 or 1) -/
+  sess : Nat := 0
 deriving Inhabited
 
 structure DSt where
   tr : String := ""
+  pv : String := ""
   status : String := ""
   calls : List CallRec := []
   victim : Nat := 0
@@ -50,7 +55,15 @@ structure DSt where
   bad : Bool := false
 
 def followBase : Nat := 100
-def nCalls : Nat := 103
+def nCalls : Nat := 105
+
+/-- Twin cases (`cfg … tw=c|s`: one Client with two servers / one Server with two client sessions): calls 103 and 104
+are the follow-up calls on session 1.  The session of a call number. -/
+def sessOf (calls : List CallRec) (i : Nat) : Nat :=
+  if i == followBase + 3 || i == followBase + 4 then 1
+  else match calls[i]? with
+    | some k => k.sess
+    | none => 0
 
 def isStreamable (tr : String) : Bool := tr.startsWith "sh" || tr.startsWith "sl"
 def suffix (tr : String) : String := (tr.drop 2).toString
@@ -62,14 +75,14 @@ def mkCfg (st : DSt) : Cfg :=
     | some k => k.dir == "c2s"
     | none => true
   let info (i : Nat) : Info :=
-    if i == followBase || i == followBase + 2 then { dir := .c2s, plain := !(st.tr.startsWith "sl" && (suffix st.tr).contains 'p') }
+    if i == followBase || i == followBase + 2 || i == followBase + 3 || i == followBase + 4 then { dir := .c2s, plain := st.pv != "2026-07-28" }  -- the follow-up is a ping; under 2026-07-28 (no ping) a tool call
     else if i == followBase + 1 then { dir := .s2c, encl := carrier, plain := true }
     else match st.calls[i]? with
       | some k =>
         let c2s := k.dir == "c2s"
         { dir := if c2s then .c2s else .s2c,
           encl := if k.dir == "s2cn" then carrier else none,
-          fault := st.fault != "none" && st.fault != "late" && (c2s == vdirC2S),
+          fault := st.fault != "none" && st.fault != "late" && (c2s == vdirC2S) && k.sess == 0,
           plain := k.meth == "ping" }
       | none => {}
   { tr := if st.tr.startsWith "sl" then .stateless else if st.tr.startsWith "sh" then .stateful else .pipe,
@@ -279,8 +292,10 @@ def callName (st : DSt) (i : Nat) : String :=
   if i == followBase then "the follow-up call (client→server, before the release)"
   else if i == followBase + 1 then "the nested follow-up call (server→client, inside the carrier's handler)"
   else if i == followBase + 2 then "the last follow-up call (client→server, 6 s after everything returned)"
+  else if i == followBase + 3 then "the follow-up call on the OTHER session (client→server, before the release)"
+  else if i == followBase + 4 then "the last follow-up call on the OTHER session (client→server, 6 s after everything returned)"
   else match st.calls[i]? with
-    | some k => s!"call {i} ({k.dir} {k.meth})"
+    | some k => if k.sess == 0 then s!"call {i} ({k.dir} {k.meth})" else s!"call {i} ({k.dir} {k.meth}, on the OTHER session: session {k.sess})"
     | none => s!"call {i}"
 
 def timeOfK (evs : List Ev) (p : EvK → Bool) (i : Nat) : String :=
@@ -324,11 +339,11 @@ def engine : Engine DSt where
     | ["reset"] => ({}, { model := "ok" })
     | "cfg" :: rest =>
       match kv rest "tr" with
-      | some tr => ({ tr := tr, status := impl }, { model := "ok" })
+      | some tr => ({ tr := tr, pv := (kv rest "pv").getD "", status := impl }, { model := "ok" })
       | none => (st, { model := "bad-op" })
     | "c" :: rest =>
       match kv rest "dir", kv rest "meth" with
-      | some d, some m => ({ st with calls := st.calls ++ [{ dir := d, meth := m }] }, { model := "ok" })
+      | some d, some m => ({ st with calls := st.calls ++ [{ dir := d, meth := m, sess := if kv rest "s" == some "1" then 1 else 0 }] }, { model := "ok" })
       | _, _ => ({ st with bad := true }, { model := "bad-op" })
     | "x" :: rest =>
       match (kv rest "victim").bind (·.toNat?), kv rest "fault" with
@@ -346,16 +361,25 @@ def engine : Engine DSt where
       let c := mkCfg st
       let broken := st.fault == "fail"
       let mc : MonCfg := ⟨c, broken⟩
+      -- two sessions: the product of two pair models with a common clock (Cancel/Twin.lean).  By `run2_proj_left/right`
+      -- the log of each session must be the visible part of a run of ITS pair model, and the monitor is evaluated on
+      -- each session's log (`monitor_accepts_product`): nothing that happens on one session may show on the other.
+      let evs0 := st.evs.filter fun e => sessOf st.calls e.i == 0
+      let evs1 := st.evs.filter fun e => sessOf st.calls e.i != 0
       let rej :=
         if st.bad || !canOnce st.evs then " bad-log"
         else if broken then ""
-        else match accept c st.evs with
-          | none => ""
+        else match accept c evs0 with
           | some k => s!" rejected@{k}"
-      let v := match mon mc st.evs with
+          | none =>
+            if evs1.isEmpty then "" else
+            match accept c evs1 with
+            | none => ""
+            | some k => s!" rejected@other-session:{k}"
+      let v := match (mon mc evs0).or (mon { mc with broken := false } evs1) with
         | some cl => some (clauseText st c cl)
         | none =>
-          match monEnd mc st.evs with
+          match (monEnd mc evs0).or (monEnd { mc with broken := false } evs1) with
           | some cl => some (clauseText st c cl)
           | none =>
             if kv o "stuck" == some "1" && !broken then some "C04: some call never returned although every handler was released and 20 s of virtual time passed" else none
